@@ -167,3 +167,11 @@ Definition slevel_eqv (a b : slevel) : bool :=
   opt_eqv (list_eqv alt_eqv) (sl_range a) (sl_range b) &&
   opt_eqv (list_eqv alt_eqv) (sl_length a) (sl_length b) &&
   list_eqv pat_eqb (sl_pats a) (sl_pats b).
+
+(** a number is in a union of restricted integer types when it is in the effective type of some member *)
+Definition in_union (ms : list (ikind * option (list alt))) (z : Z) : Prop :=
+  exists m, In m ms /\ kind_min (fst m) <= z <= kind_max (fst m) /\
+            in_restr (kind_min (fst m), O) (kind_max (fst m), O) (z, O) (snd m).
+Definition in_unionb (ms : list (ikind * option (list alt))) (z : Z) : bool :=
+  existsb (fun m => (kind_min (fst m) <=? z) && (z <=? kind_max (fst m)) &&
+                    in_restrb (kind_min (fst m), O) (kind_max (fst m), O) (z, O) (snd m)) ms.
